@@ -139,3 +139,50 @@ theorem C20_saveTo_stores_injected (ins : List Nat) (j : Nat) (hj : j < ins.leng
   simp [hj]
 
 end Nject
+
+namespace Nject
+
+/-! ### FillExisting -/
+
+theorem StructVal.getOr_zero (s : StructVal) (p : Path) : s.getOr p 0 = s.get p := rfl
+
+/-- with FillExisting a written leaf holds what `get` says, whatever it held before -/
+theorem StructVal.getOr_of_some (s : StructVal) (p : Path) (base : Nat) (w : Path × Nat)
+    (h : s.reverse.find? (fun w => w.1.isPrefixOf p) = some w) : s.getOr p base = s.get p := by
+  unfold StructVal.getOr StructVal.get; rw [h]
+
+/-- **FillExisting keeps what it does not fill**: a leaf that lies under none of the filled field
+    paths keeps the value the given struct held -/
+theorem C20_fill_existing_keeps_unfilled (ins : List (Path × Ty)) (f : Path × Ty → Nat) (p : Path) (base : Nat)
+    (h : ∀ x ∈ ins, ¬ x.1 <+: p) : (fillerCall ins (ins.map f)).getOr p base = base := by
+  unfold StructVal.getOr
+  have : (fillerCall ins (ins.map f)).reverse.find? (fun w => w.1.isPrefixOf p) = none := by
+    rw [List.find?_eq_none]
+    intro w hw
+    have hw' : w ∈ fillerCall ins (ins.map f) := List.mem_reverse.mp hw
+    unfold fillerCall at hw'
+    obtain ⟨⟨pt, v⟩, hz, rfl⟩ := List.mem_map.mp hw'
+    have hpt : pt ∈ ins := (List.of_mem_zip hz).1
+    have := h pt hpt
+    simpa [List.isPrefixOf_iff_prefix] using this
+  rw [this]
+
+/-- … and fills the others exactly as a fresh struct would be filled -/
+theorem C20_fill_existing_fills_like_fresh (d : FDesc) (supply : Ty → Nat) (ins : List (Path × Ty))
+    (h : d.inputs [] = some ins) (base : Nat) :
+    ∀ x ∈ ins, ∀ suffix, (fillerCall ins (ins.map fun pt => supply pt.2)).getOr (x.1 ++ suffix) base = supply x.2 := by
+  intro x hx suffix
+  have hfresh := (C20_builder_fills_fields d supply ins h).1 x hx suffix
+  -- some write covers the path (x itself), so the base value is not consulted
+  cases hf : (fillerCall ins (ins.map fun pt => supply pt.2)).reverse.find? (fun w => w.1.isPrefixOf (x.1 ++ suffix)) with
+  | some w => rw [StructVal.getOr_of_some _ _ _ w hf]; exact hfresh
+  | none =>
+    exfalso
+    have hn := List.find?_eq_none.mp hf
+    have hmem : (x.1, supply x.2) ∈ (fillerCall ins (ins.map fun pt => supply pt.2)).reverse := by
+      rw [List.mem_reverse, fillerCall_map]
+      exact List.mem_map.mpr ⟨x, hx, rfl⟩
+    have := hn _ hmem
+    simp [List.isPrefixOf_iff_prefix] at this
+
+end Nject
